@@ -27,7 +27,7 @@ def prove_json_typed_get(f, st, label):
     p = f.cfg.point_of(st['i'])
     for cond, k, b in f.cfg.controlling_branches(p):
         for c in q.subtree_calls(f, cond):
-            if c.get('fn', '').startswith('is_') and 'obj' in c and f.path(c['obj']) == xp:
+            if c.get('fn', '').startswith('is_') and 'obj' in c and f.path(c['obj']) == xp and q.stable(f, xp, f.cfg.point_of(cond), p, content=True):
                 return 'value type tested by %s() on a dominating branch' % c['fn']
     return None
 
